@@ -9,7 +9,7 @@ ASSUMPTIONS = [
     'linear in theta: checked away from the periodic seam (a function linear in theta is not periodic)',
 ]
 OUTSIDE = ['pairs other than the listed shapes', 'the > 10 000 element parallel clause (no-OpenMP build; see C11/C12)']
-BOUNDS = {'quick': 'fine (9,8) <- (5,4), (7,8) <- (4,4), (5,4) <- (3,2), (7,12) <- (4,6); several splits on both levels; standard and extrapolated pair',
+BOUNDS = {'quick': 'fine (9,8) <- (5,4), (7,8) <- (4,4), (5,4) <- (3,2), (7,12) <- (4,6), (9,8) split 6 <- (5,4) split 2; several splits on both levels; standard and extrapolated pair',
           'thorough': 'fine nr in {5,7,9,11}, ntheta in {4,8,12}, splits -1 (automatic), 0, 2, 3, nr-1, nr on the fine and -1, 1, all-circles on the coarse level (the full cross product of splits did not finish in an hour)'}
 
 
@@ -17,7 +17,7 @@ def jobs(tier, seed):
     J = []
     q = tier == 'quick'
     if q:
-        shapes = [(9, 8, -1, -1), (9, 8, 4, 2), (7, 8, 3, 2), (5, 4, 2, 1), (9, 8, 6, 4), (7, 12, 2, 2)]   # last: ntheta not a power of two (wrapThetaIndex modulo branch)
+        shapes = [(9, 8, -1, -1), (9, 8, 4, 2), (7, 8, 3, 2), (5, 4, 2, 1), (9, 8, 6, 4), (7, 12, 2, 2), (9, 8, 6, 2)]   # (7,12): ntheta not a power of two (wrapThetaIndex modulo branch); (9,8,6/2): coarse radial nodes whose fine partner lies in the fine circle section
     else:
         shapes = []
         for nr in (5, 7, 9, 11):
